@@ -1,7 +1,7 @@
 """C03 Returned L and U are structurally well-formed  —  wiring of L/U to the filled arrays, count/fix-up order, R9 + twins.  (R5a capacity clause: see C19/C07.)"""
 from ..facts import Program
 from ..run import Check, AnalysisBroken
-from ..rules import factor_tail, r9_sibling
+from ..rules import factor_tail, r9_sibling, r5_grow
 from . import _drv
 
 R9_UNITS = ['gstrf.c', 'column_dfs.c', 'snode_dfs.c', 'copy_to_ucol.c', 'pruneL.c', 'panel_dfs.c', 'util.c', 'memory.c']
@@ -28,6 +28,9 @@ def run(tier):
             n += factor_tail.run(chk, 'C03.D1', prog, p, cfgname)
         if n < 40:
             raise AnalysisBroken('C03: %d rule instances, floor 40' % n)
+        ns, nc = r5_grow.run(chk, 'C03.D2', prog, cfgname)
+        if ns < 56:
+            raise AnalysisBroken('C03: %d expansion call sites, floor 56' % ns)
         if cfgname == 'tested':
             r9_sibling.run(chk, prog, 'C03.D3', {p + u for p in 'dz' for u in R9_UNITS}, cfgname)
         r9_sibling.run_twins(chk, prog, 'C03.twins', TWINS, cfgname)
